@@ -208,10 +208,6 @@ mod vharness {
         k += prefix.len();
         let mut z = 0; while z < zeros + digits { assert!(o[k + z] == b'0', "C19:fmt:zero-padding-then-the-digit"); z += 1; }
     }
-    //@harness props=C19,C01 strength=bounded bound="the value 0 (and -0), width and precision 0..8, every flag combination" clause="%x / %X of zero: [sign] then the 0x / 0X prefix of the '#' flag, then zero padding up to the precision or (with the 0 flag) the width, then the digit - printf's layout ('%#x' % 0 is '0x0', '%#06x' % 0 is '0x0000')" timeout=600 replay=fmt_hex_zero
-    #[kani::proof]
-    #[kani::unwind(12)]
-    fn hex_zero_layout() { zero_layout(true); }
     //@harness props=C19,C01 strength=bounded bound="the value 0, width and precision 0..8, every flag combination, radix 10 and 8" clause="%d / %o of zero: [sign] then zero padding up to the precision or the width, then the digit" timeout=600
     #[kani::proof]
     #[kani::unwind(12)]
